@@ -14,36 +14,36 @@ const (
 	KInvalid Kind = iota
 	KProgram      // L body; FStrict = "use strict" directive
 	// ---- expressions
-	KNum      // N
-	KStr      // S
-	KBool     // N != 0
-	KNull     //
-	KUndef    // printed as `undefined`
-	KIdent    // S
-	KThis     //
-	KTmpl     // Q quasis (len(L)+1), L expressions
-	KArr      // L elements (KSpread allowed)
-	KObj      // L of KProp
-	KProp     // S key | FComputed: A key expr ; B value ; flags FGetter/FSetter/FMethod/FShorthand/FSpread(A only in B)
-	KFunc     // S name, L params (patterns / KPatElem with default / KRest), M body statements; FArrow, FExprBody, FStrict, FMethod, FGetter, FSetter
-	KClass    // S name, A superclass, L members (KMember)
-	KMember   // S key, B = KFunc ; FStatic, FGetter, FSetter, FCtor
-	KUnary    // S op (- + ! ~ typeof void delete), A
-	KUpdate   // S op (++ --), FPrefix, A target
-	KBin      // S op, A, B   (arithmetic, comparison, in, instanceof)
-	KLogic    // S op (&& || ??), A, B
-	KAssign   // S op (= += … &&= ||= ??=), A target (ref or pattern when op is "="), B value
-	KCond     // A ? B : C
-	KSeq      // L
-	KCall     // A callee, L args ; FOptional
-	KNew      // A callee, L args
-	KDot      // A object, S name ; FOptional
-	KIndex    // A object, B key ; FOptional
-	KChain    // A : delimits the short-circuit scope of an optional chain
-	KSpread   // A
+	KNum       // N
+	KStr       // S
+	KBool      // N != 0
+	KNull      //
+	KUndef     // printed as `undefined`
+	KIdent     // S
+	KThis      //
+	KTmpl      // Q quasis (len(L)+1), L expressions
+	KArr       // L elements (KSpread allowed)
+	KObj       // L of KProp
+	KProp      // S key | FComputed: A key expr ; B value ; flags FGetter/FSetter/FMethod/FShorthand/FSpread(A only in B)
+	KFunc      // S name, L params (patterns / KPatElem with default / KRest), M body statements; FArrow, FExprBody, FStrict, FMethod, FGetter, FSetter
+	KClass     // S name, A superclass, L members (KMember)
+	KMember    // S key, B = KFunc ; FStatic, FGetter, FSetter, FCtor
+	KUnary     // S op (- + ! ~ typeof void delete), A
+	KUpdate    // S op (++ --), FPrefix, A target
+	KBin       // S op, A, B   (arithmetic, comparison, in, instanceof)
+	KLogic     // S op (&& || ??), A, B
+	KAssign    // S op (= += … &&= ||= ??=), A target (ref or pattern when op is "="), B value
+	KCond      // A ? B : C
+	KSeq       // L
+	KCall      // A callee, L args ; FOptional
+	KNew       // A callee, L args
+	KDot       // A object, S name ; FOptional
+	KIndex     // A object, B key ; FOptional
+	KChain     // A : delimits the short-circuit scope of an optional chain
+	KSpread    // A
 	KSuperCall // L args
 	KSuperDot  // S name
-	KEval     // L body statements of the evaluated code (a sub-Program); FIndirect, FStrict (own directive)
+	KEval      // L body statements of the evaluated code (a sub-Program); FIndirect, FStrict (own directive)
 	// ---- patterns
 	KArrPat  // L elements: KPatElem | KRest | nil (hole)
 	KObjPat  // L elements: KPatProp | KRest
@@ -92,22 +92,22 @@ func (k Kind) String() string {
 type Flags uint32
 
 const (
-	FStrict    Flags = 1 << iota // "use strict" directive (Program, Func, Eval)
-	FArrow                       // arrow function
-	FExprBody                    // arrow with expression body: M = [KRet e]
-	FMethod                      // method syntax (object literal / class member function)
-	FGetter                      //
-	FSetter                      //
-	FStatic                      //
-	FCtor                        // class constructor
-	FComputed                    // computed key
-	FShorthand                   // {x} / {x = 1}
-	FOptional                    // ?. link
-	FPrefix                      // ++x
-	FIndirect                    // (0, eval)(…)
-	FSpreadProp                  // {...e} : KProp with B = e
-	FDerived                     // KFunc that is the constructor of a derived class (set by the interpreter/generator)
-	FSynthetic                   // node added by a rewrite (evidence only)
+	FStrict     Flags = 1 << iota // "use strict" directive (Program, Func, Eval)
+	FArrow                        // arrow function
+	FExprBody                     // arrow with expression body: M = [KRet e]
+	FMethod                       // method syntax (object literal / class member function)
+	FGetter                       //
+	FSetter                       //
+	FStatic                       //
+	FCtor                         // class constructor
+	FComputed                     // computed key
+	FShorthand                    // {x} / {x = 1}
+	FOptional                     // ?. link
+	FPrefix                       // ++x
+	FIndirect                     // (0, eval)(…)
+	FSpreadProp                   // {...e} : KProp with B = e
+	FDerived                      // KFunc that is the constructor of a derived class (set by the interpreter/generator)
+	FSynthetic                    // node added by a rewrite (evidence only)
 )
 
 // Node is the uniform node of the mini-AST.  Which fields are meaningful is listed next to each Kind.
@@ -199,13 +199,19 @@ func (n *Node) IsFuncBoundary() bool { return n.K == KFunc }
 
 // ---- constructors (used by the generator, the rewrites and hand-written witnesses)
 
-func Num(v float64) *Node       { return &Node{K: KNum, N: v} }
-func Str(s string) *Node        { return &Node{K: KStr, S: s} }
-func Bool(b bool) *Node         { n := &Node{K: KBool}; if b { n.N = 1 }; return n }
-func Null() *Node               { return &Node{K: KNull} }
-func Undef() *Node              { return &Node{K: KUndef} }
-func Id(name string) *Node      { return &Node{K: KIdent, S: name} }
-func This() *Node               { return &Node{K: KThis} }
+func Num(v float64) *Node { return &Node{K: KNum, N: v} }
+func Str(s string) *Node  { return &Node{K: KStr, S: s} }
+func Bool(b bool) *Node {
+	n := &Node{K: KBool}
+	if b {
+		n.N = 1
+	}
+	return n
+}
+func Null() *Node                 { return &Node{K: KNull} }
+func Undef() *Node                { return &Node{K: KUndef} }
+func Id(name string) *Node        { return &Node{K: KIdent, S: name} }
+func This() *Node                 { return &Node{K: KThis} }
 func Un(op string, a *Node) *Node { return &Node{K: KUnary, S: op, A: a} }
 func Bin(op string, a, b *Node) *Node {
 	switch op {
@@ -215,16 +221,16 @@ func Bin(op string, a, b *Node) *Node {
 	return &Node{K: KBin, S: op, A: a, B: b}
 }
 func Assign(op string, t, v *Node) *Node { return &Node{K: KAssign, S: op, A: t, B: v} }
-func Cond(a, b, c *Node) *Node         { return &Node{K: KCond, A: a, B: b, C: c} }
-func Seq(l ...*Node) *Node             { return &Node{K: KSeq, L: l} }
-func Call(f *Node, args ...*Node) *Node { return &Node{K: KCall, A: f, L: args} }
-func New(f *Node, args ...*Node) *Node  { return &Node{K: KNew, A: f, L: args} }
-func Dot(o *Node, name string) *Node   { return &Node{K: KDot, A: o, S: name} }
-func Index(o, k *Node) *Node           { return &Node{K: KIndex, A: o, B: k} }
-func Arr(l ...*Node) *Node             { return &Node{K: KArr, L: l} }
-func Obj(props ...*Node) *Node         { return &Node{K: KObj, L: props} }
-func Prop(key string, v *Node) *Node   { return &Node{K: KProp, S: key, B: v} }
-func Spread(a *Node) *Node             { return &Node{K: KSpread, A: a} }
+func Cond(a, b, c *Node) *Node           { return &Node{K: KCond, A: a, B: b, C: c} }
+func Seq(l ...*Node) *Node               { return &Node{K: KSeq, L: l} }
+func Call(f *Node, args ...*Node) *Node  { return &Node{K: KCall, A: f, L: args} }
+func New(f *Node, args ...*Node) *Node   { return &Node{K: KNew, A: f, L: args} }
+func Dot(o *Node, name string) *Node     { return &Node{K: KDot, A: o, S: name} }
+func Index(o, k *Node) *Node             { return &Node{K: KIndex, A: o, B: k} }
+func Arr(l ...*Node) *Node               { return &Node{K: KArr, L: l} }
+func Obj(props ...*Node) *Node           { return &Node{K: KObj, L: props} }
+func Prop(key string, v *Node) *Node     { return &Node{K: KProp, S: key, B: v} }
+func Spread(a *Node) *Node               { return &Node{K: KSpread, A: a} }
 func Func(name string, params []*Node, body ...*Node) *Node {
 	return &Node{K: KFunc, S: name, L: params, M: body}
 }
@@ -234,16 +240,16 @@ func Arrow(params []*Node, body ...*Node) *Node {
 func ArrowExpr(params []*Node, e *Node) *Node {
 	return &Node{K: KFunc, F: FArrow | FExprBody, L: params, M: []*Node{Ret(e)}}
 }
-func ExprStmt(e *Node) *Node     { return &Node{K: KExpr, A: e} }
-func Block(l ...*Node) *Node     { return &Node{K: KBlock, L: l} }
-func Ret(e *Node) *Node          { return &Node{K: KRet, A: e} }
-func If(t, a, b *Node) *Node     { return &Node{K: KIf, A: t, B: a, C: b} }
-func Throw(e *Node) *Node        { return &Node{K: KThrow, A: e} }
+func ExprStmt(e *Node) *Node        { return &Node{K: KExpr, A: e} }
+func Block(l ...*Node) *Node        { return &Node{K: KBlock, L: l} }
+func Ret(e *Node) *Node             { return &Node{K: KRet, A: e} }
+func If(t, a, b *Node) *Node        { return &Node{K: KIf, A: t, B: a, C: b} }
+func Throw(e *Node) *Node           { return &Node{K: KThrow, A: e} }
 func Label(l string, s *Node) *Node { return &Node{K: KLabel, S: l, A: s} }
 func Var(kind string, target, init *Node) *Node {
 	return &Node{K: KVar, S: kind, L: []*Node{{K: KDeclr, A: target, B: init}}}
 }
-func FuncDecl(f *Node) *Node { return &Node{K: KFuncDecl, A: f} }
+func FuncDecl(f *Node) *Node  { return &Node{K: KFuncDecl, A: f} }
 func Log(args ...*Node) *Node { return ExprStmt(Call(Id("log"), args...)) }
 func DirectEval(strict bool, body ...*Node) *Node {
 	n := &Node{K: KEval, L: body}
